@@ -254,6 +254,98 @@ func (c *C08Case) Run() string {
 	return ""
 }
 
+// ---------------------------------------------------------------- layout invariance, bit for bit
+
+// C08Layout: "its layout does not affect the result". The same logical array is reduced along the same
+// logical axis three ways - as given, as a lazily transposed tensor, and as the transposed array stored
+// contiguously (so that the axis sits at another position and another kernel does the folding) - over
+// values whose floating-point sums depend on the order and precision of the accumulation. The results
+// must agree exactly; a refusal of the lazily transposed operand is accepted.
+type C08Layout struct {
+	Op   string `json:"op"` // Sum | Max | Min
+	DT   string `json:"dt"`
+	A    Opnd   `json:"a"`
+	Axis int    `json:"axis"`
+}
+
+func init() { register("C08.layoutinv", func() Case { return &C08Layout{} }) }
+
+func (c *C08Layout) NTKey() string {
+	if c.A.Shape[c.Axis] < 2 {
+		return ""
+	}
+	return fmt.Sprintf("%s|%s|%v|%d|%v", c.Op, c.DT, c.A.Shape, c.Axis, c.A.Codes)
+}
+
+func (c *C08Layout) Run() string {
+	d := dtByName(c.DT)
+	arr := c.A.arr(d)
+	rank := len(arr.Shape)
+	rev := revPerm(rank)
+	reduce := func(t *tensor.Dense, axis int) (r tensor.Tensor, err error, pan string) {
+		pan = try(func() {
+			switch c.Op {
+			case "Sum":
+				r, err = t.Sum(axis)
+			case "Max":
+				r, err = t.Max(axis)
+			default:
+				r, err = t.Min(axis)
+			}
+		})
+		return
+	}
+	desc := fmt.Sprintf("%s(%s) along axis %d of shape %v values %s", c.Op, c.DT, c.Axis, arr.Shape, fmtVals(arr.E))
+	plain, err := Build(arr, Layout{Root: "rm"}, nil)
+	if err != nil {
+		return inconclusive
+	}
+	r1, e1, p1 := reduce(plain.T, c.Axis)
+	if p1 != "" || e1 != nil {
+		return desc + fmt.Sprintf(": contiguous operand: %v %v", p1, e1)
+	}
+	base := arrOf(r1)
+	// the transposed array, stored contiguously: the axis moves to position rank-1-axis
+	tarr := arr.Permute(rev)
+	tb, err := Build(tarr, Layout{Root: "rm"}, nil)
+	if err != nil {
+		return inconclusive
+	}
+	r2, e2, p2 := reduce(tb.T, rank-1-c.Axis)
+	if p2 != "" || e2 != nil {
+		return desc + fmt.Sprintf(": transposed array stored contiguously: %v %v", p2, e2)
+	}
+	got2 := arrOf(r2)
+	if len(got2.Shape) > 1 {
+		got2 = got2.Permute(revPerm(len(got2.Shape)))
+	}
+	if len(got2.E) != len(base.E) {
+		return desc + fmt.Sprintf(": result sizes differ between layouts: %v vs %v", base.Shape, got2.Shape)
+	}
+	for k := range base.E {
+		if !eqVal(base.E[k], got2.E[k]) {
+			return desc + fmt.Sprintf(": the layout affects the result: element %d is %s for the array as given and %s for its transpose stored contiguously (reduced along the corresponding axis)", k, fmtVal(base.E[k]), fmtVal(got2.E[k]))
+		}
+	}
+	// the transposed array, lazily transposed back: the same logical array through strides
+	lb, err := Build(arr, Layout{Root: "rm", Steps: []LStep{{Op: "T", Perm: rev}}}, nil)
+	if err == nil {
+		r3, e3, p3 := reduce(lb.T, c.Axis)
+		if p3 == "" && e3 == nil {
+			rec.Class("lazyT:computed")
+			got3 := arrOf(r3)
+			for k := range base.E {
+				if k >= len(got3.E) || !eqVal(base.E[k], got3.E[k]) {
+					return desc + fmt.Sprintf(": the layout affects the result: element %d is %s for the contiguous array and differs for the lazily transposed one (%s)", k, fmtVal(base.E[k]), fmtVals(got3.E))
+				}
+			}
+		} else {
+			rec.Class("lazyT:refused")
+		}
+	}
+	return ""
+}
+
 // inF27: all-axes Sum/Max/Min of an owning tensor whose storage has gaps (a
 // Clone() of a non-contiguous view).
 func inF27(c *C08Case) bool { return false }
@@ -278,6 +370,26 @@ var c08Layouts = []string{"contig", "lazyT", "sliced", "stepsliced", "materializ
 
 func TestC08(t *testing.T) {
 	sumDTs := append(append([]DT{}, ordNumDTs...), dtC64, dtC128)
+	// the layout does not affect the result, bit for bit, over order- and precision-sensitive values
+	for _, op := range []string{"Sum", "Max", "Min"} {
+		for _, d := range []DT{dtF32, dtF64} {
+			op, d := op, d
+			cell(t, "C08", "C08.layoutinv", "layoutinv/"+op+"/"+d.Name, nCases(120, 4000), func(rt *rapid.T) Case {
+				shape := genShapeMin2(rt, 2, 3, 4, "s")
+				c := &C08Layout{Op: op, DT: d.Name, Axis: rapid.IntRange(0, len(shape)-1).Draw(rt, "axis")}
+				c.A = Opnd{Shape: shape, Codes: genCodes(rt, prod(shape), -4, 8, 60, "v")}
+				if op != "Sum" {
+					// the order of a NaN among the folded values is not defined for Max/Min (comparisons with NaN are unordered)
+					for i, code := range c.A.Codes {
+						if isNaNVal(decode(d, code)) {
+							c.A.Codes[i] = 5
+						}
+					}
+				}
+				return c
+			})
+		}
+	}
 	for _, op := range []string{"Sum", "Max", "Min", "Argmax", "Argmin", "Reduce", "ReduceSub"} {
 		dts := ordNumDTs
 		if op == "Sum" || op == "Reduce" || op == "ReduceSub" {
